@@ -324,6 +324,20 @@ def main(argv=None) -> int:
     except ValueError:
         seed = 0
     ctx = Ctx(prop, a.tier, seed)
+    # last line of defence: whatever a changed library (or a tool) does, the check ends. A run that is still going after
+    # 40 min (quick) / 3 h (thorough) — the slowest check takes 1 min / 10 min — is infrastructure trouble: exit 2, no verdict.
+    import threading
+
+    def _watchdog():
+        import faulthandler
+        print(f"INFRA-ERROR property={prop} watchdog: the run did not end within its time budget (stacks on stderr)", flush=True)
+        try:
+            faulthandler.dump_traceback(file=sys.stderr)
+        finally:
+            os._exit(2)
+    _wd = threading.Timer(2400 if a.tier == "quick" else 10800, _watchdog)
+    _wd.daemon = True
+    _wd.start()
     mod = importlib.import_module(f"props.{prop.lower()}")
 
     if a.replay:
